@@ -9,8 +9,13 @@ def run(ctx):
     P = semcheck.gen_programs(ctx.seed * 7919 + 1, n_strat, "strat", p_edge=True)
     P += semcheck.gen_programs(ctx.seed * 7919 + 2, n_loop, "negloop")
     P += common.family_small(ctx.pick(150, 2500), ctx.seed)
-    common.sem_check(ctx, P, variants=lambda p: [("default", {"text": progs.render(p)})],
-                     level="exploration")
+    P += common.cyclic_family(ctx.pick(150, 2500), ctx.seed + 100)
+
+    def variants(p):
+        t = progs.render(p)
+        # 'cli': the options the command line uses by default (evidence propagation on, log space)
+        return [("default", {"text": t}), ("cli", {"text": t, "gopts": {"propagate_evidence": True}, "semiring": "log"})]
+    common.sem_check(ctx, P, variants=variants, level="exploration")
 
 
 def replay(ctx, path):
